@@ -14,6 +14,8 @@ import (
 	"strings"
 
 	connect "github.com/bufbuild/connect-go"
+	"google.golang.org/protobuf/encoding/protowire"
+	"google.golang.org/protobuf/reflect/protoreflect"
 	"google.golang.org/protobuf/types/known/wrapperspb"
 
 	"verifharness/memhttp"
@@ -64,6 +66,11 @@ const (
 	CompSendGzip Comp = "sendgzip" // client sends gzip
 	CompSendMin  Comp = "sendmin"  // client sends gzip, both sides compress-min-bytes = MinBytes
 	CompCustom   Comp = "custom"   // algorithm "rev1" on both sides, client sends it
+	// CompAsym: the two sides have different custom algorithms whose names
+	// contain one another ("rev" on the handler, "rev1" on the client) and share
+	// gzip; the client sends identity, so the response encoding is negotiated
+	// from its accept list and the only common one is gzip.
+	CompAsym Comp = "asym"
 	MinBytes          = 64
 )
 
@@ -300,6 +307,9 @@ func (c Cfg) ClientOptions() []connect.ClientOption {
 	case CompCustom:
 		d, co := XorAlg(0xA1)
 		opts = append(opts, connect.WithAcceptCompression("rev1", d, co), connect.WithSendCompression("rev1"))
+	case CompAsym:
+		d, co := XorAlg(0xA1)
+		opts = append(opts, connect.WithAcceptCompression("rev1", d, co))
 	}
 	return opts
 }
@@ -313,6 +323,9 @@ func (c Cfg) HandlerOptions() []connect.HandlerOption {
 	case CompCustom:
 		d, co := XorAlg(0xA1)
 		opts = append(opts, connect.WithCompression("rev1", d, co))
+	case CompAsym:
+		d, co := XorAlg(0xA3)
+		opts = append(opts, connect.WithCompression("rev", d, co))
 	}
 	return opts
 }
@@ -365,7 +378,11 @@ func (c *clientH) Receive() (*BV, error) {
 	if c.s.Receive() {
 		// Copy: Msg() is documented to be overwritten by the next Receive.
 		m := c.s.Msg()
-		return &BV{Value: append([]byte(nil), m.Value...)}, nil
+		cp := &BV{Value: append([]byte(nil), m.Value...)}
+		if u := m.ProtoReflect().GetUnknown(); len(u) > 0 {
+			cp.ProtoReflect().SetUnknown(append(protoreflect.RawFields(nil), u...))
+		}
+		return cp, nil
 	}
 	if err := c.s.Err(); err != nil {
 		return nil, err
@@ -478,7 +495,7 @@ type CallResult struct {
 // until the end.  hdr is attached to the request.
 func RunCall(ctx context.Context, cl *connect.Client[BV, BV], kind Kind, reqs [][]byte, hdr http.Header) CallResult {
 	var out CallResult
-	mk := func(p []byte) *BV { return &BV{Value: p} }
+	mk := MkMsg
 	switch kind {
 	case KUnary:
 		req := connect.NewRequest(mk(reqs[0]))
@@ -488,7 +505,7 @@ func RunCall(ctx context.Context, cl *connect.Client[BV, BV], kind Kind, reqs []
 			out.Err = err
 			return out
 		}
-		out.Msgs = append(out.Msgs, cloneBytes(res.Msg.Value))
+		out.Msgs = append(out.Msgs, MsgBytes(res.Msg))
 		out.Header, out.Trailer = res.Header(), res.Trailer()
 	case KClient:
 		s := cl.CallClientStream(ctx)
@@ -508,7 +525,7 @@ func RunCall(ctx context.Context, cl *connect.Client[BV, BV], kind Kind, reqs []
 			out.Err = err
 			return out
 		}
-		out.Msgs = append(out.Msgs, cloneBytes(res.Msg.Value))
+		out.Msgs = append(out.Msgs, MsgBytes(res.Msg))
 		out.Header, out.Trailer = res.Header(), res.Trailer()
 	case KServer:
 		req := connect.NewRequest(mk(reqs[0]))
@@ -519,7 +536,7 @@ func RunCall(ctx context.Context, cl *connect.Client[BV, BV], kind Kind, reqs []
 			return out
 		}
 		for s.Receive() {
-			out.Msgs = append(out.Msgs, cloneBytes(s.Msg().Value))
+			out.Msgs = append(out.Msgs, MsgBytes(s.Msg()))
 		}
 		out.Err = s.Err()
 		out.Header, out.Trailer = s.ResponseHeader(), s.ResponseTrailer()
@@ -555,7 +572,7 @@ func RunCall(ctx context.Context, cl *connect.Client[BV, BV], kind Kind, reqs []
 				}
 				break
 			}
-			out.Msgs = append(out.Msgs, cloneBytes(m.Value))
+			out.Msgs = append(out.Msgs, MsgBytes(m))
 		}
 		out.Header, out.Trailer = s.ResponseHeader(), s.ResponseTrailer()
 		if err := s.CloseResponse(); err != nil && out.Err == nil {
@@ -566,6 +583,77 @@ func RunCall(ctx context.Context, cl *connect.Client[BV, BV], kind Kind, reqs []
 }
 
 func cloneBytes(b []byte) []byte { return append([]byte{}, b...) }
+
+// UnknownMark as first payload byte makes MkMsg build a message that also
+// carries fields the BytesValue type does not declare (a relay forwarding a
+// newer peer's message): the binary codec must carry them across, protojson
+// cannot represent them.
+const UnknownMark = 0xFE
+
+func unknownFieldsFor(p []byte) []byte {
+	var u []byte
+	u = protowire.AppendTag(u, 15, protowire.VarintType)
+	u = protowire.AppendVarint(u, uint64(300+len(p)))
+	u = protowire.AppendTag(u, 16, protowire.BytesType)
+	u = protowire.AppendBytes(u, []byte("uk"))
+	return u
+}
+
+// TailMark as first payload byte (followed by a big-endian uint32) makes MkMsg
+// build a message whose binary encoding has exactly that many bytes: the
+// 8-byte payload followed by a run of two-byte unknown fields.  Every prefix of
+// the encoding that ends between two of them is itself a valid message — the
+// kind of message for which a truncated envelope is not caught by the codec.
+const TailMark = 0xFD
+
+// TailPayload is the payload of the message whose encoding has total bytes (even, >= 12).
+func TailPayload(total int) []byte {
+	return []byte{TailMark, byte(total >> 24), byte(total >> 16), byte(total >> 8), byte(total), 't', 'l', '!'}
+}
+
+// MkMsg builds the message for payload p.
+func MkMsg(p []byte) *BV {
+	m := &BV{Value: p}
+	switch {
+	case len(p) > 0 && p[0] == UnknownMark:
+		m.ProtoReflect().SetUnknown(unknownFieldsFor(p))
+	case len(p) == 8 && p[0] == TailMark:
+		total := int(p[1])<<24 | int(p[2])<<16 | int(p[3])<<8 | int(p[4])
+		u := make([]byte, 0, total-10)
+		for len(u)+2 <= total-10 {
+			u = append(u, 15<<3, 1) // field 15, varint 1
+		}
+		m.ProtoReflect().SetUnknown(u)
+	}
+	return m
+}
+
+// MsgBytes is the observation of a received message: its payload, followed by
+// its unknown fields if it has any.
+func MsgBytes(m *BV) []byte {
+	out := cloneBytes(m.Value)
+	if u := m.ProtoReflect().GetUnknown(); len(u) > 0 {
+		out = append(append(out, "|U|"...), u...)
+	}
+	return out
+}
+
+// ExpectMsg is what the receiver of MkMsg(p) must observe under the codec.
+func ExpectMsg(p []byte, json bool) []byte {
+	if len(p) > 0 && p[0] == UnknownMark && !json {
+		return append(append(cloneBytes(p), "|U|"...), unknownFieldsFor(p)...)
+	}
+	return p
+}
+
+// ExpectMsgs maps ExpectMsg over a sequence.
+func ExpectMsgs(ps [][]byte, json bool) [][]byte {
+	out := make([][]byte, len(ps))
+	for i, p := range ps {
+		out[i] = ExpectMsg(p, json)
+	}
+	return out
+}
 
 // Payload builds a payload whose *proto encoding* (BytesValue) has exactly
 // encSize bytes (encSize 0 = zero value; encSize 1 is not constructible and
@@ -680,6 +768,8 @@ func AnyDecompress(alg string, p []byte) ([]byte, error) {
 		return XorDecode(0xA3, p)
 	case "rev1":
 		return XorDecode(0xA1, p)
+	case "rev":
+		return XorDecode(0xA3, p)
 	}
 	return nil, fmt.Errorf("reference has no algorithm %q", alg)
 }
